@@ -62,6 +62,10 @@ def generate(tier, rng):
         for vn, (pd_, ok) in pvariants.items():
             for via in ("ctor", "set_prms"):
                 cases.append(dict(stream="validators", coq=False, kind="lifetime_prm", lt=lt, dims=[base["t"], base["r"]], pdims=pd_, variant=vn, valid=ok, via=via))
+                if not ok and lt != "FixedLifetime" and via == "set_prms":
+                    # only the SECOND parameter is over the wrong dimensions: the call is refused as a whole, the first parameter
+                    # (a valid one) is not taken over either
+                    cases.append(dict(cases[-1], only_second=True))
     # values held in arrays of another dtype (whole numbers in an integer array, single precision): every result, down to
     # 0-dimensional ones, is still a numpy array of the shape of its dimensions and can be assigned to
     for dtype in ("int64", "int32", "float32", "float64"):
@@ -131,7 +135,8 @@ def run_impl(case):
             else:
                 lm = getattr(fd, case["lt"])(dims=dims, time_letter="t", **first)
                 before = {n: np.array(getattr(lm, n), copy=True) for n in names}
-                lm.set_prms(**{n: prm(3 + i) for i, n in enumerate(names)})
+                good = fd.FlodymArray(dims=dims, values=np.full(dims.shape, 3.0))
+                lm.set_prms(**{n: (good if case.get("only_second") and i == 0 else prm(3 + i)) for i, n in enumerate(names)})
             return dict(kind="prm", accepted=True, shapes=[list(np.shape(getattr(lm, n))) for n in names], want=list(dims.shape))
         except Exception as e:  # noqa
             kept = before is None or all(np.array_equal(before[n], getattr(lm, n)) for n in names)
@@ -259,7 +264,7 @@ def oracle(case, ob):
             return f"{case['cls']} refused matching {case['which']}: {ob['exc']}: {ob['msg'][:60]}"
         return None
     if case.get("kind") == "lifetime_prm":
-        d = f"{case['lt']} ({case['via']}) with parameters over '{case['variant']}' dimensions"
+        d = f"{case['lt']} ({case['via']}) with {'the second parameter' if case.get('only_second') else 'parameters'} over '{case['variant']}' dimensions"
         if case["valid"]:
             if not ob["accepted"]:
                 return f"{d}: refused ({ob['exc']}: {ob['msg'][:60]})"
